@@ -5,7 +5,9 @@ module String = Stdlib.String
 (* ---------------- C08-C11: LZ10 / LZ13 compression and decompression ----------------
    lz10c <flag> B<input>          flag 0: skipped by the model (implementation + oracle only)
    lz13c <flag> B<input>          flag 0: skipped; 1: wrapper length bytes not computed (printed as 0,
-                                  masked by the comparison); 2: everything
+                                  masked by the comparison); 2: everything; 3: as 1 and the model's decoder is
+                                  not run on the result (printed rt:skipped; long outputs at displacement 4096
+                                  cost output * displacement list steps in the list model) - also for lz10c
    lzd <entry> <flag> B<stream>   entry 10 | 13 | f10 | f13; flag 0: skipped
    The decoder model is run in both arithmetic modes; the line says so if they differ. *)
 let show_dec (r : BinNums.coq_N list Machine.outcome) : string =
@@ -23,11 +25,12 @@ let both (f : Machine.mode -> BinNums.coq_N list Machine.outcome) : BinNums.coq_
     let b = f Machine.Wrapping in
     (a, if a = b then "" else " MODE-DEPENDENT wrapping:" ^ show_dec b)
 
-let compress_line (input : BinNums.coq_N list) (c : BinNums.coq_N list Machine.outcome)
+let compress_line ?(skip_rt = false) (input : BinNums.coq_N list) (c : BinNums.coq_N list Machine.outcome)
     (dec : Machine.mode -> BinNums.coq_N list -> BinNums.coq_N list Machine.outcome) : string =
   match c with
   | Machine.Err _ -> "err"
   | Machine.Panic _ -> "PANIC"
+  | Machine.Ok c when skip_rt -> "ok " ^ show_b c ^ " rt:skipped"
   | Machine.Ok c ->
     let (r, note) = both (fun m -> dec m c) in
     let rt = (match r with
@@ -41,7 +44,7 @@ let lz10c (toks : string list) : string =
   | [flag; b] ->
     if flag = "0" then "SKIP" else
       let x = parse_b b in
-      compress_line x (Machine.Ok (LZ10.compress10 x)) LZDecode.lz10_decompress
+      compress_line ~skip_rt:(flag = "3") x (Machine.Ok (LZ10.compress10 x)) LZDecode.lz10_decompress
   | _ -> failwith "lz10c: bad case"
 
 let lz13c (toks : string list) : string =
@@ -49,8 +52,8 @@ let lz13c (toks : string list) : string =
   | [flag; b] ->
     if flag = "0" then "SKIP" else
       let x = parse_b b in
-      let c = if flag = "1" then LZ11.compress13_nohdr Machine.Checked x else LZ11.compress13 Machine.Checked x in
-      compress_line x c LZDecode.lz13_decompress
+      let c = if flag = "1" || flag = "3" then LZ11.compress13_nohdr Machine.Checked x else LZ11.compress13 Machine.Checked x in
+      compress_line ~skip_rt:(flag = "3") x c LZDecode.lz13_decompress
   | _ -> failwith "lz13c: bad case"
 
 let lzd (toks : string list) : string =
